@@ -81,12 +81,11 @@ where
     OA: ObservationAttributes,
 {
     pub fn get(&self) -> Result<()> {
-        let res = self.receiver.recv();
-        if res.is_err() {
-            res?;
-            unreachable!();
+        match self.receiver.recv() {
+            Ok(Results::MergeResult(res)) => res,
+            Ok(_) => unreachable!(),
+            Err(e) => Err(e.into()),
         }
-        Ok(())
     }
 
     pub fn is_ready(&self) -> bool {
